@@ -3,6 +3,7 @@ import GateryModel.C01.Rules2
 import GateryModel.C01.SeqLift
 import GateryModel.C01.Masking
 import GateryModel.C01.MuxChain
+import GateryModel.C01.MuxChainU
 import GateryModel.C01.RewireRules
 import GateryModel.C01.Unused
 import GateryModel.C01.Unconnected
@@ -293,6 +294,29 @@ theorem mergeBinaryMuxChain_rule_defined (w : Nat) (sel : BV4) (hs : sel.allDef 
     (hne : chain ≠ []) (hk : ∀ kv ∈ chain, kv.1.allDef = true) :
     chainEval w sel base chain = some (evalMux w (some sel :: (List.range (2 ^ sel.length)).map (chainTable base chain))) :=
   muxChain_sound w sel hs base chain hne hk
+
+/-- `mergeBinaryMuxChain`, selector with at least one undefined bit: every comparison is undefined, every mux of the chain merges its
+    inputs; the big mux merges the table entries, which are a selection of `base` and the chain values — it **refines** the chain
+    (no defined bit changes; bits may become defined). Every non-empty chain of any length, all widths, all data values. -/
+theorem mergeBinaryMuxChain_rule_undefined (w : Nat) (sel : BV4) (hs : sel.allDef = false) (base : Option BV4) (chain : List (BV4 × Option BV4))
+    (hne : chain ≠ []) :
+    ∃ v, chainEval w sel base chain = some v ∧
+      v ⊑ evalMux w (some sel :: (List.range (2 ^ sel.length)).map (chainTable base chain)) :=
+  muxChain_undef w sel hs base chain hne
+
+/-- `mergeBinaryMuxChain`, the whole rule: for **every** four-state selector value the big mux refines the chain, and equals it when the
+    selector is defined. -/
+theorem mergeBinaryMuxChain_rule (w : Nat) (sel : BV4) (base : Option BV4) (chain : List (BV4 × Option BV4))
+    (hne : chain ≠ []) (hk : ∀ kv ∈ chain, kv.1.allDef = true) :
+    ∃ v, chainEval w sel base chain = some v ∧
+      v ⊑ evalMux w (some sel :: (List.range (2 ^ sel.length)).map (chainTable base chain)) := by
+  cases hs : sel.allDef with
+  | false => exact muxChain_undef w sel hs base chain hne
+  | true => exact ⟨_, muxChain_sound w sel hs base chain hne hk, BV4.le_refl _⟩
+
+-- undefined selector: base = 0001 spoils bit 3 of the chain, but every selector value is matched, so the table does not contain base
+example : chainEval 4 [B4.x] (some (BV4.ofNat 4 1)) [([B4.f], some (BV4.ofNat 4 9)), ([B4.t], some (BV4.ofNat 4 9))] = some [B4.t, B4.f, B4.f, B4.x] ∧
+          evalMux 4 (some [B4.x] :: (List.range 2).map (chainTable (some (BV4.ofNat 4 1)) [([B4.f], some (BV4.ofNat 4 9)), ([B4.t], some (BV4.ofNat 4 9))])) = BV4.ofNat 4 9 := by decide
 
 example : chainEval 4 (BV4.ofNat 2 2) (some (BV4.ofNat 4 1)) [(BV4.ofNat 2 0, some (BV4.ofNat 4 7)), (BV4.ofNat 2 2, some (BV4.ofNat 4 9)), (BV4.ofNat 2 2, some (BV4.ofNat 4 12))]
     = some (BV4.ofNat 4 12) := by decide
